@@ -76,6 +76,7 @@ package retriever
 
 //@ func unpackTarWithOptions(reader io.Reader, outputDir string, force bool, options ArchiveOptions, trackIntegrity bool) (map[string]unpackedFileIntegrity, error)
 //@   modifies written[outputDir], all(ghost:g.tarEntryRegular)
+//@   nosplit
 //@   ensures onlySafeNames: result.1 == nil ==> (forall p string :: p in written[outputDir] ==> insideName(p))
 //@   loop 0
 //@     invariant reader: tarReader != nil && fresh(tarReader)
@@ -102,13 +103,22 @@ package retriever
 //@   forall j int :: {:pattern g.Files[j].Path} 0 <= j && j < len(g.Files) ==> fragmentChecked[g.Files[j].Path]
 //@ }
 
+// phasesValid: every file entry is a node or an edge fragment (what Manifest.validate enforces, assumed of the opaque
+// readLoadManifest); allChecked: every fragment the manifest lists has been checked.
+//@ pure func phasesValid(m Manifest) bool {
+//@   forall i int; j int :: {:pattern m.Graphs[i].Files[j].Phase} 0 <= i && i < len(m.Graphs) && 0 <= j && j < len(m.Graphs[i].Files) ==> m.Graphs[i].Files[j].Phase == PhaseNodes || m.Graphs[i].Files[j].Phase == PhaseEdges
+//@ }
+//@ pure func allChecked(m Manifest) bool {
+//@   forall i int; j int :: {:pattern m.Graphs[i].Files[j].Path} 0 <= i && i < len(m.Graphs) && 0 <= j && j < len(m.Graphs[i].Files) ==> fragmentChecked[m.Graphs[i].Files[j].Path]
+//@ }
+
 //@ func prepareLoadInput(options LoadOptions) (LoadOptions, func(), error)
 //@   opaque
 //@   nomod
 //@ func readLoadManifest(inputDir string, driverName string) (Manifest, error)
 //@   opaque
 //@   nomod
-//@   ensures validated: result.1 == nil ==> (forall i int; j int :: {:pattern result.0.Graphs[i].Files[j].Phase} 0 <= i && i < len(result.0.Graphs) && 0 <= j && j < len(result.0.Graphs[i].Files) ==> result.0.Graphs[i].Files[j].Phase == PhaseNodes || result.0.Graphs[i].Files[j].Phase == PhaseEdges)
+//@   ensures validated: result.1 == nil ==> phasesValid(result.0)
 //@ func manifestFileCount(value Manifest) int
 //@   opaque
 //@   nomod
@@ -138,24 +148,26 @@ package retriever
 // verifyCollectionFragments (verified, not trusted): when it returns nil every fragment of every graph whose phase is
 // nodes or edges has been checked - no entry is skipped, whatever its count or position.
 //@ func verifyCollectionFragments(inputDir string, nextManifest Manifest) error
+//@   requires phasesValid(nextManifest)
 //@   nosafety
 //@   modifies all(ghost:g.fragmentChecked)
-//@   ensures allChecked: result == nil ==> (forall i int; j int :: {:pattern nextManifest.Graphs[i].Files[j].Path} 0 <= i && i < len(nextManifest.Graphs) && 0 <= j && j < len(nextManifest.Graphs[i].Files) && (nextManifest.Graphs[i].Files[j].Phase == PhaseNodes || nextManifest.Graphs[i].Files[j].Phase == PhaseEdges) ==> fragmentChecked[nextManifest.Graphs[i].Files[j].Path])
+//@   ensures allChecked: result == nil ==> allChecked(nextManifest)
 //@   ensures monotone: forall p string :: old(fragmentChecked[p]) ==> fragmentChecked[p]
 //@   loop 0
 //@     invariant range: -1 <= rangeindex
 //@     invariant mono: forall p string :: old(fragmentChecked[p]) ==> fragmentChecked[p]
-//@     invariant done: forall i int; j int :: {:pattern nextManifest.Graphs[i].Files[j].Path} 0 <= i && i <= rangeindex && 0 <= j && j < len(nextManifest.Graphs[i].Files) && (nextManifest.Graphs[i].Files[j].Phase == PhaseNodes || nextManifest.Graphs[i].Files[j].Phase == PhaseEdges) ==> fragmentChecked[nextManifest.Graphs[i].Files[j].Path]
+//@     invariant done: forall i int; j int :: {:pattern nextManifest.Graphs[i].Files[j].Path} 0 <= i && i <= rangeindex && 0 <= j && j < len(nextManifest.Graphs[i].Files) ==> fragmentChecked[nextManifest.Graphs[i].Files[j].Path]
 //@   loop 1
 //@     invariant range: -1 <= rangeindex && 0 <= rangeindex$outer + 1 && rangeindex$outer + 1 < len(nextManifest.Graphs)
 //@     invariant mono: forall p string :: old(fragmentChecked[p]) ==> fragmentChecked[p]
-//@     invariant done: forall i int; j int :: {:pattern nextManifest.Graphs[i].Files[j].Path} 0 <= i && i <= rangeindex$outer && 0 <= j && j < len(nextManifest.Graphs[i].Files) && (nextManifest.Graphs[i].Files[j].Phase == PhaseNodes || nextManifest.Graphs[i].Files[j].Phase == PhaseEdges) ==> fragmentChecked[nextManifest.Graphs[i].Files[j].Path]
-//@     invariant current: forall j int :: {:pattern nextManifest.Graphs[rangeindex$outer + 1].Files[j].Path} 0 <= j && j <= rangeindex && (nextManifest.Graphs[rangeindex$outer + 1].Files[j].Phase == PhaseNodes || nextManifest.Graphs[rangeindex$outer + 1].Files[j].Phase == PhaseEdges) ==> fragmentChecked[nextManifest.Graphs[rangeindex$outer + 1].Files[j].Path]
+//@     invariant done: forall i int; j int :: {:pattern nextManifest.Graphs[i].Files[j].Path} 0 <= i && i <= rangeindex$outer && 0 <= j && j < len(nextManifest.Graphs[i].Files) ==> fragmentChecked[nextManifest.Graphs[i].Files[j].Path]
+//@     invariant current: forall j int :: {:pattern nextManifest.Graphs[rangeindex$outer + 1].Files[j].Path} 0 <= j && j <= rangeindex ==> fragmentChecked[nextManifest.Graphs[rangeindex$outer + 1].Files[j].Path]
 
 //@ func verifyLoadFragments(inputDir string, nextManifest Manifest) error
+//@   requires phasesValid(nextManifest)
 //@   nosafety
 //@   modifies all(ghost:g.fragmentChecked)
-//@   ensures allChecked: result == nil ==> (forall i int; j int :: {:pattern nextManifest.Graphs[i].Files[j].Path} 0 <= i && i < len(nextManifest.Graphs) && 0 <= j && j < len(nextManifest.Graphs[i].Files) && (nextManifest.Graphs[i].Files[j].Phase == PhaseNodes || nextManifest.Graphs[i].Files[j].Phase == PhaseEdges) ==> fragmentChecked[nextManifest.Graphs[i].Files[j].Path])
+//@   ensures allChecked: result == nil ==> allChecked(nextManifest)
 //@   ensures monotone: forall p string :: old(fragmentChecked[p]) ==> fragmentChecked[p]
 
 // requireEmptyLoadTargetsWithCounter (verified): when it returns nil the counter reported zero nodes and zero
@@ -194,7 +206,7 @@ package retriever
 //@   nosafety
 //@   loop 0
 //@     invariant range: -1 <= rangeindex
-//@     invariant verified: forall i int; j int :: {:pattern nextManifest.Graphs[i].Files[j].Path} 0 <= i && i < len(nextManifest.Graphs) && 0 <= j && j < len(nextManifest.Graphs[i].Files) ==> fragmentChecked[nextManifest.Graphs[i].Files[j].Path]
+//@     invariant verified: allChecked(nextManifest)
 //@     invariant empty: forall i int :: {:pattern nextManifest.Graphs[i].Name} 0 <= i && i < len(nextManifest.Graphs) ==> graphSeenEmpty[nextManifest.Graphs[i].Name]
 
 // the names the publishers join to the output directory are plain file names (validated by the bounded path harness)
